@@ -46,8 +46,9 @@ def gen_case(rng, plausible=True, malformed=False):
                     cmds.append(rng.choice([[8], [9], [10], [5], [5], stack_cmd()]))
                 inputs.append((k, cmds, ret))
         refresh, show, closed = [], [], []
-        if rng.random() < 0.12:
-            refresh.append([15, 1, [rng.choice([[1, rng.choice(others), 0], [4], [0, rng.choice(others), 0]])], []])
+        if rng.random() < 0.15:
+            refresh.append([15, 1, [rng.choice([[1, rng.choice(others), 0], [4], [0, rng.choice(others), 0],
+                                                [2, rng.choice(others), 0], [2, rng.choice(others), 3]])], []])
         if rng.random() < 0.08:
             show.append([15, 1, [rng.choice([[1, rng.choice(others), 0], [14, 5]])], []])
         if rng.random() < 0.15:
@@ -68,7 +69,7 @@ def gen_case(rng, plausible=True, malformed=False):
         q = rng.randrange(n)
         quit_ = [q]
         # the quit dialog answers yes / no / has no answer
-        qi = [("1", [[13, 1]], [2]), ("2", [[13, 2]], [2])] if rng.random() < 0.8 else []
+        qi = [("1", [[13, 1]], [2]), ("2", [[13, rng.choice([2, 3])]], [2])] if rng.random() < 0.8 else []
         specs[q] = spec(inputs=qi)
     first = rng.sample(range(n), rng.choice([1, 1, 2]))
     acts = [[0] + [[3, f, rng.choice([0, 5])] for f in first]]
@@ -106,7 +107,7 @@ def gen_focus_case(rng, prop):
         junk = ["x", "zz", "", "9"]
         s0 = spec(inputs=[("1", [[0, 1, 0]], [0]), ("2", [], [3]), ("3", [], [5])], default=([], None))
         s1 = spec(inputs=[("1", [], [2]), ("2", [], [3]), ("3", [], [1])], default=([], rng.choice([None, [3]])))
-        qd = spec(inputs=[("1", [[13, 1]], [2]), ("2", [[13, 2]], [2]), ("3", [], [2])])
+        qd = spec(inputs=[("1", [[13, 1]], [2]), ("2", [[13, rng.choice([2, 3])]], [2]), ("3", [], [2])])
         typed = []
         for _ in range(rng.randrange(1, 4)):
             typed += [L(rng.choice(junk + ["2", "3"])) for _ in range(rng.randrange(3, 13))]
@@ -118,7 +119,9 @@ def gen_focus_case(rng, prop):
     if prop == "C18":
         # overlapping requests: a callback asks for input while the screen's own prompt is outstanding
         skip = 1 if rng.random() < 0.7 else 0
-        s0 = spec(inputs=[("1", [[11]], [0]), ("2", [[11], [11]], [1]), ("3", [[0, 1, 0]], [0])],
+        many = rng.random() < 0.5
+        s0 = spec(inputs=[("1", [[7], [7]] if many else [[11]], [1] if many else [0]),
+                          ("2", [[7], [6], [7]] if many else [[11], [11]], [1]), ("3", [[0, 1, 0]], [0])],
                   refresh=[[15, rng.choice([0, 1, 2]), [[11]], []]] if rng.random() < 0.5 else [], skip=skip,
                   pages=rng.choice([0, 0, 1]))
         s1 = spec(inputs=[("1", [[11]], [2]), ("2", [], [2])], skip=1 if rng.random() < 0.5 else 0,
@@ -141,7 +144,10 @@ def gen_focus_case(rng, prop):
         specs = []
         for i in range(n):
             nxt = (i + 1) % n
-            inputs = [("1", [[1, nxt, 0]], [0]), ("2", [], [2]), ("3", [rng.choice([[0, nxt, 0], [2, nxt, 0], [4]])], [0])]
+            # "3": sometimes a signal sourced at this screen is emitted just before a modal push: it belongs to this
+            # screen's level and must be held there until the modal screen is closed
+            third = [rng.choice([[0, nxt, 0], [2, nxt, 0], [4]])] if rng.random() < 0.6 else [rng.choice([[6], [4]]), [1, nxt, 0]]
+            inputs = [("1", [[1, nxt, 0]], [0]), ("2", [], [2]), ("3", third, [0])]
             refresh = [[15, 1, [[1, nxt, 7]], []]] if rng.random() < 0.2 and i > 0 else []
             show = [[15, 1, [[1, nxt, 7]], []]] if rng.random() < 0.15 and i > 0 else []
             specs.append(spec(inputs=inputs, refresh=refresh, show=show, pages=rng.choice([0, 0, 0, 1])))
@@ -163,6 +169,7 @@ def gen_focus_case(rng, prop):
         o = [x for x in range(n) if x != i]
         specs.append(spec(inputs=[("1", [[0, rng.choice(o), rng.choice([0, 2])]], [0]), ("2", [[2, rng.choice(o), 0]], [0]),
                                   ("3", [[rng.choice([1, 3]), rng.choice(o), 0]], [0])],
+                          refresh=[[15, rng.choice([1, 2]), [[rng.choice([2, 2, 0]), rng.choice(o), 0]], []]] if rng.random() < 0.35 else [],
                           nosep=1 if rng.random() < 0.3 else 0))
     typed = [L(rng.choice(["1", "2", "3", "c", "c", "r"])) for _ in range(rng.randrange(4, 18))]
     return [3000, specs, typed, [], 0, [[0, [3, 0, 0]], [1]]]
